@@ -84,6 +84,15 @@ class C10(Prop):
         if iface == "asgi":
             k = t.draw(5)
             cuts = sorted(t.draw(len(body) + 1) for _ in range(k))
+            plan["alias_events"] = False
+            if kind == "other" and t.draw(3) == 0:
+                # an upload of equal blocks from a server / test client / recording layer that hands over the SAME event
+                # object for equal events (messages = [block, block, ..., last]); the events are the server's, not the library's
+                block = t.choice([b"0123456789abcdef", b"x", bytes(range(32))])
+                nb = 2 + t.draw(3)
+                body = plan["body"] = block * nb + t.choice([b"", b"tail"])
+                cuts = [len(block) * (i + 1) for i in range(nb)]
+                plan["alias_events"] = True
             pieces = [body[i:j] for i, j in zip([0] + cuts, cuts + [len(body)])]
             msgs = []
             for i, p in enumerate(pieces):
@@ -119,6 +128,7 @@ class C10(Prop):
             plan["tasks"] = [gen_program(t, 5)]
         # a body may travel with any method (a GET with a body is unusual, not illegal)
         plan["method"] = t.choice(["POST", "POST", "POST", "PUT", "GET", "DELETE", "PATCH"])
+        plan["edits_items"] = t.draw(4) == 0
         return plan
 
     def describe(self, plan, variant=None):
@@ -177,6 +187,9 @@ class C10(Prop):
         async def form_items(form):
             # uploads may have been closed by a `close` access in the meantime: read once, remember
             if id(form) in items_cache:
+                now = [k for k, _ in form.multi_items()]
+                if now != [k for k, _ in items_cache[id(form)]]:
+                    ctx.violate("C10|asgi|form|cached-form-changed-by-editing-the-list-it-handed-out", "field names now %r, first read %r" % (now, [k for k, _ in items_cache[id(form)]]))
                 return items_cache[id(form)]
             out = []
             for k, v in form.multi_items():
@@ -191,6 +204,12 @@ class C10(Prop):
                 else:
                     out.append((k, v))
             items_cache[id(form)] = out
+            if plan.get("edits_items"):
+                # the application works on the list it was handed (drops what it has dealt with, adds a computed field)
+                mine = form.multi_items()
+                del mine[:1]
+                mine.append(("computed", "1"))
+                ctx.probe("caller_edits_its_items_list")
             return out
 
         harness_cancel = {"on": False}
@@ -198,7 +217,9 @@ class C10(Prop):
         async def scenario(loop):
             req_abs = AbstractRequest(plan.get("method", "POST"), "/", headers=[("content-type", plan["ct"])] if plan["ct"] else [], body=body)
             peer = AsgiHttpPeer(loop, ctx, ctx.sched, req_abs, plan["msgs"], recv_lat_extra=(0.0, 0.0, 0.05, 0.2),
-                                complete_disconnects=False)
+                                complete_disconnects=False, alias_equal_events=plan.get("alias_events", False))
+            if plan.get("alias_events"):
+                ctx.probe("server_reuses_event_objects")
             req = Request(peer.scope, peer.receive, peer.send)
 
             async def prog(tid, ops):
@@ -465,6 +486,9 @@ class C10(Prop):
 
         def form_items(form):
             if id(form) in items_cache:
+                now = [k for k, _ in form.multi_items()]
+                if now != [k for k, _ in items_cache[id(form)]]:
+                    ctx.violate("C10|wsgi|form|cached-form-changed-by-editing-the-list-it-handed-out", "field names now %r, first read %r" % (now, [k for k, _ in items_cache[id(form)]]))
                 return items_cache[id(form)]
             out = []
             for k, v in form.multi_items():
@@ -479,6 +503,12 @@ class C10(Prop):
                 else:
                     out.append((k, v))
             items_cache[id(form)] = out
+            if plan.get("edits_items"):
+                # the application works on the list it was handed (drops what it has dealt with, adds a computed field)
+                mine = form.multi_items()
+                del mine[:1]
+                mine.append(("computed", "1"))
+                ctx.probe("caller_edits_its_items_list")
             return out
 
         for step, (op, arg, dl) in enumerate(plan["tasks"][0]):
